@@ -427,7 +427,7 @@ func init() {
 		Assumptions: []string{"budget constants are ours (the property fixes none): chosen >=10x above the maxima measured on the unchanged tree (reported as measured_maxima) ", "Go cannot inject allocation failure: memory is measured (runtime/metrics heap allocs), not faulted",
 			"wall clock is observed only for the time budget and confirmed by repetition; a worker death (fatal error, OOM under RLIMIT_AS 12 GiB) reproduced in 3/3 fresh processes counts as a crash"},
 		Real: realLib, Stub: append([]string{"unit transport (box-level, repaired and unrepaired sizes)", "stored-byte faults (bit rot, zeroed/misdirected ranges)"}, stubIO...), RealNoFault: realNoFault,
-		Runs:        map[string]int{"quick": 40000, "thorough": 3000000},
+		Runs:        map[string]int{"quick": 400000, "thorough": 20000000},
 		HangBudget:  150 * time.Second,
 		Setup:       c04Setup,
 		Run:         c04Run,
